@@ -29,3 +29,4 @@ EQUIVALENT = [
     ('label via percent format', A, "                f.rename(f.with_suffix(f'.{self.label}{f.suffix}'))", "                f.rename(f.with_suffix('.%s%s' % (self.label, f.suffix)))"),
     ('copy2', A, "    shutil.copy(path, new_path)", "    shutil.copy2(path, new_path)"),
 ]
+BREAKING.append(('rawInd relative to the lowest raw channel', 'phylib/io/alf.py', "        channel_offset = 0\n", "        channel_offset = np.min(self.model.channel_mapping)\n", ['C13.U2']))
